@@ -525,10 +525,19 @@ fn defplace(case: &Case, rep: &mut Report) {
     };
     // If the entry file is included again (a cycle through the entry), lines written in it are
     // executed again while API-level defines are not: the two placements legitimately differ
-    let m = model::run(&fss[task_a.fs], &task_a.faults, &task_a.entry, &task_a.defines);
-    if m.walk.iter().any(|w| w.resolved.as_deref() == Some(canonical.as_str())) {
-        rep.count("defplace_skipped_entry_included_again", 1);
-        return;
+    // (decided from the load history of the run itself, so it does not depend on the model)
+    {
+        let res = run_exec(ex_a, &fss);
+        let r = &res.results[0][0];
+        if r
+            .events
+            .iter()
+            .skip(1)
+            .any(|e| e.resolved.as_deref() == Some(canonical.as_str()))
+        {
+            rep.count("defplace_skipped_entry_included_again", 1);
+            return;
+        }
     }
     let e = fs_b.files.get_mut(&canonical).unwrap();
     *e = format!("{prefix}{e}");
